@@ -41,9 +41,40 @@ def num(v):
     return int(f) if f == int(f) and abs(f) < 1e9 else f
 
 
+class Volume:
+    """a parameter object (what an envelope subclass stores on its events); its value is a number"""
+
+    def __init__(self, level):
+        self.level = level
+
+
+class VolumeEnvelope(ce.Envelope):
+    """an envelope whose parameters are objects: the documented hooks map between parameter and value"""
+
+    def event_to_parameter(self, event):
+        return event.volume
+
+    def apply_parameter_on_event(self, event, parameter):
+        event.volume = parameter
+
+    def parameter_to_value(self, parameter):
+        return parameter.level
+
+    def value_to_parameter(self, value):
+        return Volume(value)
+
+
 def build(x):
     kind = x[0]
     evs = []
+    if kind == "E" and sum(int(p[0]) for p in x[1:]) % 4 == 1 and os.environ.get("VERIF_PLAIN_ENVELOPES") != "1":
+        # every fourth plain envelope (decided by its length) is a subclass with parameter objects
+        for i, p in enumerate(x[1:]):
+            c = ce.Chronon(Fraction(int(p[0]), TICK) if i % 3 == 1 else int(p[0]) / TICK)
+            c.volume = Volume(num(p[1]))
+            c.curve_shape = num(p[2])
+            evs.append(c)
+        return VolumeEnvelope(evs)
     if kind == "E":
         for i, p in enumerate(x[1:]):
             # control points with float durations and (every third one) ratio durations: an envelope of mixed duration classes
@@ -60,7 +91,12 @@ def build(x):
             # every third time as a Fraction - except on a repeated time (the constructor compares the raw numbers, and the
             # double nearest to a decimal is not the decimal: a jump has to be written with one and the same number)
             alone = int(p[0]) != 0 and (i == 0 or int(x[i][0]) != 0)
-            pts.append([Fraction(t0, TICK) if i % 3 == 2 and alone else t0 / TICK, num(p[1]), num(p[2])])
+            v = num(p[1])
+            if i % 4 == 1:
+                v = cp.DirectTempo(v)                         # the bpm of a point may be given as a tempo object
+            elif i % 4 == 3 and v:
+                v = cp.WesternTempo(v / 2, reference=2)       # ... of any kind: half the number of half notes
+            pts.append([Fraction(t0, TICK) if i % 3 == 2 and alone else t0 / TICK, v, num(p[2])])
             t0 += int(p[0])
         return cp.FlexTempo(pts)
     if kind == "T":
@@ -160,6 +196,7 @@ C_, S_, P_ = ce.Chronon, ce.Consecution, ce.Concurrence
 
 
 _ALL_RATIO = [False]
+_SHARED = {}
 
 
 def all_ratio(x):
@@ -170,6 +207,7 @@ def all_ratio(x):
 
 
 def build_tree_top(x):
+    _SHARED.clear()
     _ALL_RATIO[0] = all_ratio(x)
     try:
         return build_tree(x)
@@ -182,11 +220,19 @@ def build_tree(x):
     if x[0] == "L":
         # every fifth label is a leaf with a ratio duration (as in the M1 runner); a quarter of the trees are written in
         # ratios throughout (decided by the tree itself: see all_ratio)
-        c = C_(Fraction(int(x[1]), TICK) if (int(x[2]) % 5 == 2 or _ALL_RATIO[0]) else int(x[1]) / TICK)
-        c.name = int(x[2])
+        l = int(x[2])
+        if l >= 1000 and (l, int(x[1])) in _SHARED:
+            return _SHARED[(l, int(x[1]))]        # labels >= 1000: ONE leaf object at several positions
+        c = C_(Fraction(int(x[1]), TICK) if (l % 5 == 2 or _ALL_RATIO[0]) else int(x[1]) / TICK)
+        c.name = l
+        if l >= 1000:
+            _SHARED[(l, int(x[1]))] = c
         return c
     cls = S_ if x[0] == "S" else P_
-    return cls([build_tree(k) for k in x[3:]])
+    # a node may carry a tempo of its own: a tempo CONVERTER does not apply it (only metrize does), the leaf durations
+    # are those of the bare tree
+    tp = {0: None, 1: cp.DirectTempo(90), 2: cp.FlexTempo([[0, 60], [1, 120, 1], [2, 40]])}.get(int(x[2]) % 3)
+    return cls([build_tree(k) for k in x[3:]], tempo=tp)
 
 
 def build_tempo(x):
@@ -299,6 +345,42 @@ def run_jointempo(case):
             flags.append("second-operand-tempo-changed")
         if [ticks(x.duration) for x in r] != [da, db] or [ticks(x.duration) for x in a] != [da] or [ticks(x.duration) for x in b] != [db]:
             flags.append("content-wrong")
+    elif kind in ("chain_index", "chain_tag", "self_index"):
+        # two joins on one receiver (the third operand has the first one's tempo and length), or a self-join: after every
+        # join the EARLIER operands must still read as before, and the voice's tempo follows ta | tb shifted | tc shifted
+        a = P_([S_([C_(da / TICK)], tempo=ta, tag="v")])
+        b = P_([S_([C_(db / TICK)], tempo=tb, tag="v")])
+        c = P_([S_([C_(da / TICK)], tempo=build_tempo(case[2]), tag="v")])
+        join = (lambda x, y: x.concatenate_by_tag(y)) if kind == "chain_tag" else (lambda x, y: x.concatenate_by_index(y))
+        if kind == "self_index":
+            a.concatenate_by_index(a.copy())
+            a.concatenate_by_index(b)
+            segs = [(0, da, case[2]), (da, da, case[2]), (2 * da, db, case[4])]
+        else:
+            join(a, b)
+            b_after_first = tempo_points(b[0].tempo)
+            join(a, c)
+            if tempo_points(b[0].tempo) != tb_before or b_after_first != tb_before:
+                flags.append("an-earlier-operand-tempo-changed-by-a-later-join")
+            if tempo_points(c[0].tempo) != ta_before:
+                flags.append("second-operand-tempo-changed")
+            segs = [(0, da, case[2]), (da, db, case[4]), (da + db, da, case[2])]
+        rt = a[0].tempo
+        if [ticks(x.duration) for x in a[0]] != [d for (_, d, _) in segs]:
+            flags.append("content-wrong")
+        out = ["ok", tempo_points(rt)]
+        frt = cp.FlexTempo.from_parameter(rt)
+        rows = []
+        for (start, d, tx) in segs:
+            fo = cp.FlexTempo.from_parameter(build_tempo(tx))
+            for i in range(1, 9):
+                x = start + d * i // 9
+                if start < x < start + d:
+                    rows.append([x, sf(frt.value_at(x / TICK)), sf(fo.value_at((x - start) / TICK))])
+        out.append(["grid"] + rows)
+        if flags:
+            out.append(["flags"] + flags)
+        return out
     elif kind in ("unmatched_index", "unmatched_tag"):
         # a voice that only the second operand has: it is new in the result, behind a padding rest of the first operand's
         # duration; its tempo has to be the second operand's, shifted by that duration (known finding F9)
@@ -619,6 +701,15 @@ def run(case):
                         rows.append([start + x, sf(part.value_at(x / TICK)), sf(orig.value_at((start + x) / TICK))])
                     start += d
                 out.append(["grid"] + rows)
+                # the parts are envelopes like any other, made of their own event objects
+                ids = [id(ev) for part in parts for ev in part]
+                if len(set(ids)) != len(ids) or set(ids) & set(map(id, e)):
+                    out.append(["followup", "parts-share-event-objects"])
+                for k_, part in enumerate(parts):
+                    fu = followup(part)
+                    if fu and fu[0][1] != "ok":
+                        out.append(fu[0] + ["part", k_])
+                        break
                 return out
             else:
                 raise ValueError(op)
@@ -627,7 +718,12 @@ def run(case):
         out = ["ok", snap(r), ["grid"] + op_grid(build(case[1]), r, op)]
         return out + followup(r)
     if k == "of_points":
-        pts = [[int(p[0]) / TICK, num(p[1]), num(p[2])] for p in case[1]]
+        pts = []
+        for i, p in enumerate(case[1]):
+            pt = [int(p[0]) / TICK, num(p[1]), num(p[2])]
+            if num(p[2]) == 0 and i % 2 == 0:
+                pt = pt[:2]                      # the documented short form: the curve shape defaults to 0
+            pts.append(tuple(pt) if i % 3 == 1 else pt)
         return snap(ce.Envelope(pts))
     if k in ("convert", "convert1"):
         try:
